@@ -1,6 +1,263 @@
 package main
 
-// corpus returns the regression histories (witnesses W1..W13 and minimized failures).
+import (
+	"strings"
+	"time"
+)
+
+// The regression corpus: the witness histories W1..W13 of DESIGN.md section 6.5
+// (ops fully resolved) and every minimized failure ever found.
+//
+// On the repaired tree W1..W7 and W12 raise no monitor; W8, W9, W10, W13
+// re-confirm the known findings K1, K2, K3, K5 (their violations carry the
+// "K<n>: " prefix). W7 and W11 stop where the genesis pipeline starts.
+
+const sec = int64(time.Second)
+
+func base(n int64) CoinsArg { return CoinsArg{Kind: "B", Amt: n} }
+
+func price(p string) PricingArg { return PricingArg{Kind: "P", Price: p, Denom: denom} }
+
+func opDefine(svc, owner int64) Op {
+	return Op{Kind: "define", Svc: svc, Content: svc, Owner: owner}
+}
+
+func opBind(svc, prov, owner int64, dep CoinsArg, pr PricingArg, qos uint64) Op {
+	return Op{Kind: "bind", Svc: svc, Prov: prov, Owner: owner, Dep: dep, Pr: pr, QoS: qos}
+}
+
+func opCall(tx uint64, svc int64, provs []int64, cons int64, cap int64, timeout int64, rep bool, freq uint64, total int64) Op {
+	return Op{Kind: "call", Tx: tx, Svc: svc, Provs: provs, Cons: cons, Input: int64(tx % 1000), InputOK: true, Dep: base(cap),
+		Timeout: timeout, Rep: rep, Freq: freq, Total: total}
+}
+
+func opModCall(tx uint64, svc int64, provs []int64, cons int64, cap int64, timeout int64, rep bool, freq uint64, total int64, thr int64) Op {
+	o := opCall(tx, svc, provs, cons, cap, timeout, rep, freq, total)
+	o.Kind = "modcall"
+	o.Thr = thr
+	o.Mod = cbModAtom
+	return o
+}
+
+func opEB(dt int64) Op { return Op{Kind: "endblock", Dt: dt} }
+
+// opRespond answers request (tx, 0, batch, height, index) as `who`; out = 0 means no output (use an error code).
+func opRespond(tx uint64, batch uint64, h, i int64, who int64, code int64, out int64, valid bool) Op {
+	return Op{Kind: "respond", Tx: tx, Batch: batch, RHeight: h, RIndex: i, Who: who, Code: code, Out: out, OutValid: valid}
+}
+
+func opCtx(kind string, tx uint64, who int64) Op { return Op{Kind: kind, Tx: tx, Who: who} }
+
+func opWithdraw(owner, prov int64) Op { return Op{Kind: "withdraw", Owner: owner, Prov: prov} }
+
+func rich(atoms ...int64) [][2]int64 {
+	var f [][2]int64
+	for _, a := range atoms {
+		f = append(f, [2]int64{a, 50000000})
+	}
+	return f
+}
+
+// k5Atoms: the standard pools plus the short addresses of W11 / W13.
+func k5Atoms() *Atoms {
+	a := standardAtoms()
+	a.addAddr(151, []byte("owner"))
+	a.addAddr(152, []byte("ownerX"))
+	a.addAddr(153, []byte("tiny"))
+	a.addAddr(154, []byte("tin2"))
+	return a
+}
+
+func atomsFor(h *History) *Atoms {
+	if h.AtomSet == "k5" {
+		return k5Atoms()
+	}
+	return standardAtoms()
+}
+
+// w7prefix: the message part of W7 / W11 for a given provider atom.
+func w7prefix(prov int64) []Op {
+	return []Op{
+		opDefine(1, 101),
+		opBind(1, prov, 101, base(20000), price("10"), 1),
+		{Kind: "setwd", Owner: 101, Addr: 131},
+		opCall(7001, 1, []int64{prov}, 111, 1000, 2, true, 2, -1),
+		opEB(5 * sec),
+		opRespond(7001, 1, 10, 0, prov, 200, 1, true),
+		opEB(5 * sec),
+		opEB(5 * sec),
+		{Kind: "export"},
+	}
+}
+
 func corpus() []*History {
-	return corpusC17()
+	var hs []*History
+	add := func(name string, cfg int, funding [][2]int64, ops ...Op) *History {
+		h := &History{Name: name, CfgIdx: cfg, Funding: funding, Ops: ops}
+		hs = append(hs, h)
+		return h
+	}
+
+	// W1 (D1): a consumer holding 5 calls a provider priced 10: paused, nothing issued, nothing charged.
+	add("W1-D1-pause-for-funds", 0, append(rich(101), [2]int64{111, 5}),
+		opDefine(1, 101),
+		opBind(1, 126, 101, base(6000), price("10"), 1),
+		opCall(1001, 1, []int64{126}, 111, 1000, 2, false, 0, 0),
+		opEB(5*sec), opEB(5*sec), opEB(5*sec))
+
+	// W2 (D2): a price that parses to 0 is charged as 1 and recorded as 1.
+	add("W2-D2-subunit-price", 0, append(rich(101), [2]int64{111, 1000}),
+		opDefine(1, 101),
+		opBind(1, 126, 101, base(6000), price("0.5"), 1),
+		opCall(1002, 1, []int64{126}, 111, 1000, 2, false, 0, 0),
+		opEB(5*sec))
+
+	// W3 (D3): raising the price above what the deposit covers is rejected.
+	add("W3-D3-update-price-min-deposit", 0, rich(101),
+		opDefine(1, 101),
+		opBind(1, 126, 101, base(6000), price("1"), 1),
+		Op{Kind: "update", Svc: 1, Prov: 126, Owner: 101, Dep: CoinsArg{Kind: "E"}, Pr: price("100")})
+
+	// W4 (D4): an empty deposit is an error, not a panic.
+	add("W4-D4-empty-deposit", 0, rich(101),
+		opDefine(1, 101),
+		opBind(1, 126, 101, CoinsArg{Kind: "E"}, price("1"), 1))
+
+	// W5 (D5): total 1, paused during the only batch, started after it expired: completed, no batch 2.
+	add("W5-D5-total-after-restart", 0, append(rich(101), [2]int64{111, 1000}),
+		opDefine(1, 101),
+		opBind(1, 126, 101, base(6000), price("10"), 1),
+		opCall(1005, 1, []int64{126}, 111, 1000, 2, true, 2, 1),
+		opEB(5*sec),
+		opCtx("pause", 1005, 111),
+		opEB(5*sec), opEB(5*sec),
+		opCtx("start", 1005, 111),
+		opEB(5*sec), opEB(5*sec))
+
+	// W6 (D6): provider V (20 bytes) and a foreign provider V[:19]; withdrawing V[:19] must not take V's earnings.
+	add("W6-D6-prefix-provider-earnings", 0, append(rich(101, 102), [2]int64{111, 1000}),
+		opDefine(1, 101),
+		opBind(1, 121, 101, base(20000), price("10"), 1),
+		opBind(1, 122, 102, base(20000), price("10"), 1),
+		opBind(1, 126, 102, base(20000), price("10"), 1),
+		opCall(1006, 1, []int64{121, 126}, 111, 1000, 2, false, 0, 0),
+		opEB(5*sec),
+		opRespond(1006, 1, 10, 0, 121, 200, 1, true),
+		opRespond(1006, 1, 10, 1, 126, 200, 2, true),
+		opWithdraw(102, 122),
+		opWithdraw(101, 121),
+		opWithdraw(102, 0),
+		opEB(5*sec), opEB(5*sec))
+
+	// W7 (D7 D8 D9): message prefix only; the genesis steps are run by the export pipeline.
+	add("W7-D7D8D9-genesis-prefix", 0, append(rich(101), [2]int64{111, 1000}), w7prefix(126)...)
+
+	// W8 (K1): a base price whose minimum deposit overflows 255 bits panics.
+	add("W8-K1-price-overflow", 0, rich(101),
+		opDefine(1, 101),
+		opBind(1, 126, 101, base(6000), PricingArg{Kind: "N", Text: `{"price":"1` + strings.Repeat("0", 76) + `stake"}`}, 1))
+
+	// W9 (K2): frequency 2^64-1 wraps the next-batch height into the past.
+	add("W9-K2-frequency-wrap", 0, append(rich(101), [2]int64{111, 1000}),
+		opDefine(1, 101),
+		opBind(1, 126, 101, base(6000), price("10"), 1),
+		opCall(1009, 1, []int64{126}, 111, 1000, 2, true, 1<<64-1, -1),
+		opEB(5*sec), opEB(5*sec), opEB(5*sec))
+
+	// W10 (K3): the module-service call path; the user bind of the reserved service is rejected (C05).
+	add("W10-K3-module-service-call", 0, append(rich(101), [2]int64{111, 1000}),
+		opDefine(5, 101),
+		opBind(5, 126, 101, base(6000), price("10"), 1),
+		opCall(1010, 5, []int64{126}, 111, 1000, 2, false, 0, 0),
+		opEB(5*sec), opEB(5*sec), opEB(5*sec))
+
+	// W11 (K4): W7 with a 4-byte provider; message prefix only.
+	add("W11-K4-short-provider-genesis-prefix", 0, append(rich(101), [2]int64{111, 1000}), w7prefix(153)...).AtomSet = "k5"
+
+	// W12 (positive): simultaneous expiries and new batches, module callbacks, pause for funds with a state callback.
+	{
+		provs := []int64{126, 127, 121}
+		cons := []int64{111, 112, 102, 103, 131, 132, 141, 101}
+		ops := []Op{opDefine(1, 101)}
+		for _, p := range provs {
+			ops = append(ops, opBind(1, p, 101, base(20000), price("10"), 1))
+		}
+		for i, c := range cons {
+			rep := i >= 4
+			freq, total := uint64(0), int64(0)
+			if rep {
+				freq, total = 2, -1
+			}
+			ops = append(ops, opCall(uint64(2001+i), 1, provs, c, 1000, 2, rep, freq, total))
+		}
+		ops = append(ops,
+			opModCall(2101, 1, provs, 112, 1000, 2, false, 0, 0, 2),
+			opModCall(2102, 1, []int64{126}, 113, 1000, 1, true, 1, -1, 1),
+			opEB(5*sec),
+			opRespond(2102, 1, 10, 0, 126, 200, 1, true),
+			opRespond(2101, 1, 10, 0, 126, 200, 2, true),
+			opRespond(2101, 1, 10, 1, 127, 200, 3, false),
+			opEB(5*sec), // module context 2: batch 2 cannot be paid -> paused, one state callback
+			opEB(5*sec), // 24 requests of 8 contexts and module context 1 expire; 4 repeated contexts start batch 2 at once
+			opEB(5*sec),
+			opEB(5*sec), // batch 2 of the repeated contexts expires
+			opEB(5*sec))
+		f := rich(101, 111, 112, 102, 103, 131, 132, 141)
+		f = append(f, [2]int64{113, 15})
+		add("W12-positive-simultaneous-expiry-callbacks", 0, f, ops...)
+	}
+
+	// W13 (K5): owners that are not 20 bytes: the owner-prefixed scans are inexact and withdraw-all panics.
+	add("W13-K5-short-owner", 0, rich(151, 152),
+		opDefine(1, 151),
+		opBind(1, 153, 151, base(6000), price("10"), 1),
+		opBind(1, 154, 152, base(6000), price("10"), 1),
+		opWithdraw(151, 0),
+		Op{Kind: "query"}).AtomSet = "k5"
+
+	// W14 (positive): the boundaries the mutation study showed the other witnesses do not reach: cap = price,
+	// block time exactly at the start / end of a time promotion, a volume tier reached, super-mode time-out
+	// (no slash) and super-mode malformed answer (slash), answers by a stranger / twice / after the expiry
+	// block, a killed context that is still answered and then removed, refused pause / kill / update / start.
+	{
+		t0 := time0.Unix()
+		promo := PricingArg{Kind: "P", Price: "10", Denom: denom, T: []PT{{Start: t0 + 5, End: t0 + 10, Disc: "0.5"}}, V: []PV{{Vol: 1, Disc: "0.5"}}}
+		super := func(tx uint64) Op {
+			o := opCall(tx, 1, []int64{127}, 112, 1000, 2, false, 0, 0)
+			o.Super = true
+			return o
+		}
+		upd := Op{Kind: "updctx", Tx: 3005, Who: 113, Dep: CoinsArg{Kind: "E"}, Freq: 3}
+		add("W14-positive-boundaries", 0, append(rich(101), [2]int64{111, 1000}, [2]int64{112, 1000}, [2]int64{113, 1000}),
+			opDefine(1, 101),
+			opBind(1, 126, 101, base(20000), promo, 1),
+			opBind(1, 127, 101, base(20000), price("10"), 2),
+			opCall(3001, 1, []int64{126}, 111, 10, 1, true, 1, -1), // A: cap = price
+			super(3002), // B: never answered
+			super(3003), // C: answered with a malformed output
+			opCall(3004, 1, []int64{127}, 113, 1000, 2, false, 0, 0),       // D: one-shot
+			opCall(3005, 1, []int64{127}, 113, 1000, 2, true, 2, 2),        // E: killed in flight
+			opModCall(3006, 1, []int64{127}, 113, 1000, 2, false, 0, 0, 1), // F: module-created
+			opCall(3007, 1, []int64{127}, 112, 1000, 2, true, 2, -1),       // G: killed in flight, never answered
+			opCtx("kill", 3004, 113),                                       // refused: not repeated
+			opCtx("pause", 3004, 113),                                      // refused: not repeated
+			opCtx("pause", 3006, 113),                                      // refused: module-created
+			opEB(5*sec),
+			opRespond(3001, 1, 10, 0, 141, 200, 1, true),  // refused: a stranger
+			opRespond(3001, 1, 10, 0, 126, 200, 2, true),  // accepted, volume 1
+			opRespond(3001, 1, 10, 0, 126, 200, 3, true),  // refused: already answered
+			opRespond(3003, 1, 10, 0, 127, 200, 4, false), // accepted, slashed although super mode
+			opCtx("kill", 3005, 113),
+			opCtx("kill", 3007, 112),
+			upd,                                          // refused: completed
+			opCtx("start", 3005, 113),                    // refused: completed
+			opRespond(3005, 1, 10, 0, 127, 200, 5, true), // accepted: the batch of a killed context is still answerable
+			opEB(5*sec),                                  // A: batch 2 at the very start of the promotion, volume tier reached: fee 2
+			opEB(5*sec),                                  // A: batch 2 times out (slash, refund), batch 3 at the very end of the promotion: fee 5; B times out unslashed; E removed
+			opRespond(3001, 2, 11, 0, 126, 200, 6, true), // refused: after the expiry block
+			opEB(5*sec))
+	}
+
+	hs = append(hs, corpusC17()...)
+	return hs
 }
